@@ -127,6 +127,25 @@ Proof.
   destruct (C11_driver_sound G tbl lbl _ w evs OK E) as [H1 [H2 [_ [_ [H3 H4]]]]]. auto.
 Qed.
 
+(** The termination certificate is exact at the level of stack configurations, and monotone in
+    its bound.  If the symbolic run from the known stack part [known] on lookahead [a] has not
+    stopped after [B] steps, the driver itself performs [B] consecutive reductions from every
+    stack [known ++ rest] on that lookahead (so [term_ok B] rejects a table only when such a
+    run of [Parse] exists); a table accepted with bound [B] is accepted with every larger bound.
+    NOT proved: that the tables of the modelled constructions always pass [term_ok] for some
+    computable [B].  This needs "conflict-free => no derivation cycle A =>+ A reachable in the
+    automaton", which is the LR correctness theorem (completeness + determinism) and is beyond
+    this development; [term_ok 400] is therefore evaluated on every table on every run. *)
+Theorem C11_term_ok_exact :
+  forall (tbl : table) (B : nat) (a : look) (known rest : list Z) (inp : list nat) (out : list event),
+    sim_run B tbl a known = SimLoop -> hd_error inp = a ->
+    run B tbl (known ++ rest) inp out = Hang.
+Proof. intros tbl B a known rest inp out H Ha. exact (sim_loop_hang tbl B a known H rest inp out Ha). Qed.
+
+Theorem C11_term_ok_mono :
+  forall (tbl : table) (B B' : nat), term_ok B tbl = true -> B <= B' -> term_ok B' tbl = true.
+Proof. intros tbl B B'. apply term_ok_mono. Qed.
+
 (** The membership oracle used for the completeness search is exact up to its length bound
     whenever it answers: it lists a string iff the string is a sentence of length <= n. *)
 Theorem C11_oracle_sound :
@@ -314,6 +333,8 @@ Proof. vm_compute. reflexivity. Qed.
 
 Print Assumptions C11_driver_sound.
 Print Assumptions C11_driver_terminates.
+Print Assumptions C11_term_ok_exact.
+Print Assumptions C11_term_ok_mono.
 Print Assumptions C11_oracle_sound.
 Print Assumptions C11_oracle_complete.
 Print Assumptions C11_prec_resolve.
